@@ -11,3 +11,10 @@ mod error;
 #[cfg(test)]
 mod testing;
 
+
+/// Verification hook (off unless built with `--cfg krp_verif`): exposes the crate-private
+/// arithmetic helpers to the conformance harness. Adds no behaviour.
+#[cfg(krp_verif)]
+pub mod verif_hooks {
+    pub use crate::math::{decimal_multiplication_in_256, decimal_subtraction_in_256, decimal_summation_in_256};
+}
